@@ -315,7 +315,10 @@ def read_outputs(O):
 @obligation("C11/clock-inputs", profiles=("dev",),
             desc="check_and_consume_expected_inputs matcher: a C column is satisfied exactly by input-capable signals of that name")
 def clock_inputs(O):
-    R = rep()
+    clock_inputs_core(O, rep())
+
+
+def clock_inputs_core(O, R):
     m = O.mir
     fn2 = O.find("::check_and_consume_expected_inputs::{closure#0}")
     eng2 = O.engine()
